@@ -202,6 +202,21 @@ class Case:
         self.fitplan = None
         self.skip = None         # reason why no claim is made on this case
         self.shift = Fr(0)       # constant offset contained in all energies (E0 of ptab and qtab)
+        self.vorder = "asc"      # order in which the volume points are listed (all per-volume inputs alike)
+
+    def set_vorder(self, kind):
+        """List the volume points in another order; realise() derives every per-volume array from it."""
+        v = np.sort(np.asarray(self.volumes, dtype=float))
+        n = len(v)
+        if kind == "desc":
+            v = v[::-1].copy()
+        elif kind == "shuffle":
+            perm = [(3 * i + 2) % n for i in range(n)] if n % 3 else [(2 * i + 1) % n if n % 2 else (i + 2) % n for i in range(n)]
+            if sorted(perm) != list(range(n)) or all(perm[perm[i]] == i for i in range(n)):
+                perm = list(range(2, n)) + [0, 1]   # a rotation: a permutation that is not an involution (n >= 3)
+            v = v[perm]
+        self.volumes = v
+        self.vorder = kind
 
     def apply_shift(self, C):
         """Add the constant C to all energies: E0 of every generating curve (total and electronic)."""
@@ -238,7 +253,7 @@ class Case:
             poly=dict(set=self.poly_set, v=[rat(c) for c in self.vpoly], e=[rat(c) for c in self.epoly]),
             cvtab=[[rat(c) for c in row] for row in self.cvtab],
             stab=[[rat(c) for c in row] for row in self.stab],
-            shift=rat(self.shift), e0base=[rat(p["E0"] - self.shift) for p in self.ptab],
+            vorder=self.vorder, shift=rat(self.shift), e0base=[rat(p["E0"] - self.shift) for p in self.ptab],
             vref=self.vref, nvd=self.nvd, eldtype=self.eldtype, voldtype=self.voldtype, elcurve=self.elcurve,
             wf=bool(self.wf),
             fitplan=list(self.fitplan or ["ok"] * nT), bmplan=list(self.bmplan or ["ok"] * len(self.qtab)))
